@@ -13,8 +13,8 @@ package p15
 // expirer — decided from goroutine dumps; the package's own 500 ms reply timeouts bound the wait):
 //   - no panic (HandlePacket is wrapped; draws are journalled because the table has goroutines of its own);
 //   - every table entry is accepted by nodeFromRPC, is not the table's own ID and belongs to a node that
-//     PROVED its identity in this case: the harness delivered an intact, unexpired ping or pong signed
-//     with that node's key (nobody else holds the keys). Buckets hold <= bucketSize entries, no ID twice;
+//     ANSWERED in this case: the harness delivered an intact, unexpired pong signed with that
+//     node's key (nobody else holds the keys; a bond needs the remote's pong). Buckets hold <= bucketSize entries, no ID twice;
 //   - the table never sends a datagram to an address nodeFromRPC refuses (port 0, multicast, unspecified);
 //   - one findnode makes the table contact at most bucketSize + one packet's worth of new nodes, however
 //     many neighbours packets are thrown at it;
@@ -217,7 +217,6 @@ func (e *dtEnv) answer(r *rnode, p tsPacket) {
 		e.note("%s: pinged, answers %s -> %v", r.name, pol, err)
 		if r.pingBack && err == nil {
 			ping := sealPacket(r.key, pktPing, mustEnc(wPing{Version: 4, From: wEndpoint{IP: r.addr.IP, UDP: uint16(r.addr.Port), TCP: 30303}, To: e.selfEP(), Expiration: farFuture}))
-			e.prove(r.id)
 			_ = e.deliver(r.addr, ping, r.name+" pings back")
 		}
 	case pktFindnode:
@@ -477,7 +476,7 @@ func discTableProp(c *pbt.C) {
 	invalidAddrs := map[string]bool{}
 	ruleDiffers := ""
 	for _, r := range hostile {
-		n := []int{0, 1, 3, 8, 12, 16, 40}[c.Pick(r.name+".entries", 7)]
+		n := []int{0, 1, 3, 8, 14, 20}[c.Pick(r.name+".entries", 6)]
 		for j := 0; j < n; j++ {
 			kind := nbrKinds[c.Pick(fmt.Sprintf("%s.e%d", r.name, j%6), len(nbrKinds))]
 			c.Class("entry/" + kind)
@@ -527,7 +526,7 @@ func discTableProp(c *pbt.C) {
 			}
 			r.nbrs = append(r.nbrs, v)
 		}
-		for j := 0; j < 200; j++ {
+		for j := 0; j < 40; j++ {
 			r.flood = append(r.flood, silentNode())
 		}
 	}
@@ -544,7 +543,6 @@ func discTableProp(c *pbt.C) {
 	}
 	pingFrom := func(r *rnode) error {
 		ping := sealPacket(r.key, pktPing, mustEnc(wPing{Version: 4, From: wEndpoint{IP: r.addr.IP, UDP: uint16(r.addr.Port), TCP: 30303}, To: e.selfEP(), Expiration: farFuture}))
-		e.prove(r.id)
 		c.Checkpoint()
 		return e.deliver(r.addr, ping, r.name+" pings the table")
 	}
@@ -590,7 +588,7 @@ func discTableProp(c *pbt.C) {
 	}
 
 	// ---- actions
-	na := c.Int("actions", 1, 4)
+	na := c.Int("actions", 1, 3)
 	for i := 0; i < na; i++ {
 		l := fmt.Sprintf("a%d", i)
 		act := c.OneOf(l+".act", "lookup", "lookup", "lookup", "hostile-pings", "bond", "unsolicited", "refresh", "expire")
@@ -617,7 +615,7 @@ func discTableProp(c *pbt.C) {
 			for _, n := range res {
 				if n == nil || !e.proved[n.ID] {
 					e.mu.Unlock()
-					fail("C15/disc-table/unproved-node", "Lookup returned node %v, which never proved its identity (no intact ping or pong signed with its key was delivered)", n)
+					fail("C15/disc-table/unproved-node", "Lookup returned node %v, which never answered a ping (no intact, unexpired pong signed with its key was delivered)", n)
 				}
 			}
 			e.mu.Unlock()
@@ -717,7 +715,7 @@ func discTableProp(c *pbt.C) {
 				c.Failf("C15/disc-table/invalid-entry", "table entry %v:%d has an ID that is no curve point: %x..\nsession:\n  %s", n.IP, n.UDP, n.ID[:4], strings.Join(e.hist, "\n  "))
 			}
 			if !e.proved[n.ID] {
-				c.Failf("C15/disc-table/unproved-node", "table entry %s %v:%d id %x.. never proved its identity: no intact, unexpired ping or pong signed with its key was delivered\nsession:\n  %s", name, n.IP, n.UDP, n.ID[:4], strings.Join(e.hist, "\n  "))
+				c.Failf("C15/disc-table/unproved-node", "table entry %s %v:%d id %x.. never answered a ping: no intact, unexpired pong signed with its key was delivered\nsession:\n  %s", name, n.IP, n.UDP, n.ID[:4], strings.Join(e.hist, "\n  "))
 			}
 			if seen[n.ID] {
 				c.Failf("C15/disc-table/duplicate-entry", "node %s is in the table twice", name)
